@@ -97,7 +97,7 @@ func cbCanon(r *CbRun) string {
 			target = d.Target
 		}
 		// the raw query starts at the first '?', which may belong to the consumer URL itself
-		if r.Rec != nil && strings.HasPrefix(r.Reply.Location, r.Rec.Acs) {
+		if r.Rec != nil && redirectAddresses(r.Reply.Location, r.Rec.Acs) {
 			target = r.Rec.Acs
 		}
 	}
